@@ -646,6 +646,16 @@ func (f *frame) postconditions() {
 			}
 			conj = append(conj, implies(r.pc, flag))
 		}
+		if cs.Negative && cs.WhenRet == "" {
+			// the call must not have happened on a path that leaves by a panic either
+			for _, ex := range f.excs {
+				flag, ok := ex.heap[ghostCallKey(k)]
+				if !ok {
+					flag = "false"
+				}
+				conj = append(conj, implies(ex.pc, not(flag)))
+			}
+		}
 		save := f.curPC
 		f.curPC = e.prePC
 		kind := "calls"
